@@ -410,3 +410,71 @@ func mustPassAfter(edges []edge, must func(ssa.Instruction) bool) bool {
 	_, reach := findPath(pathQuery{startEdges: edges, target: func(in ssa.Instruction) bool { _, ok := in.(*ssa.Return); return ok }, blocker: must, edgeBlock: constFeasible})
 	return !reach
 }
+
+// expandSeq expands the first seq(a, b, …) in s into one string per element, in order.
+func expandSeq(s string) []string {
+	i := strings.Index(s, "seq(")
+	if i < 0 {
+		return []string{s}
+	}
+	depth, j := 0, -1
+	for k := i + 3; k < len(s); k++ {
+		switch s[k] {
+		case '(':
+			depth++
+		case ')':
+			depth--
+			if depth == 0 {
+				j = k
+			}
+		}
+		if j >= 0 {
+			break
+		}
+	}
+	if j < 0 {
+		return []string{s}
+	}
+	inner := s[i+4 : j]
+	var elems []string
+	depth, start := 0, 0
+	for k := 0; k < len(inner); k++ {
+		switch inner[k] {
+		case '(', '[', '{':
+			depth++
+		case ')', ']', '}':
+			depth--
+		case ',':
+			if depth == 0 && k+1 < len(inner) && inner[k+1] == ' ' {
+				elems = append(elems, inner[start:k])
+				start = k + 2
+			}
+		}
+	}
+	elems = append(elems, inner[start:])
+	var out []string
+	for _, e := range elems {
+		out = append(out, expandSeq(s[:i]+e+s[j+1:])...)
+	}
+	return out
+}
+
+// mustCallOnEveryPath: every path from f's entry to a return calls a function
+// whose name ends in suffix (constant branches resolved).
+func mustCallOnEveryPath(f *ssa.Function, suffix string) bool {
+	_, reach := findPath(pathQuery{fn: f, target: func(in ssa.Instruction) bool { _, ok := in.(*ssa.Return); return ok },
+		blocker: func(in ssa.Instruction) bool {
+			ci, ok := in.(ssa.CallInstruction)
+			if !ok {
+				return false
+			}
+			name := ""
+			if ci.Common().IsInvoke() {
+				name = ci.Common().Method.Name()
+			} else if sc := calleeFunc(ci); sc != nil {
+				name = relName(sc.String())
+			}
+			return strings.HasSuffix(name, suffix)
+		}, edgeBlock: constFeasible})
+	return !reach
+}
